@@ -29,6 +29,9 @@ func runC41(c *mon.Ctx) {
 		"(3b) multi: 2..4 Invokes in flight under the same salt, each rejected with bad_server_salt carrying the same / different new salt, in every order: back to back, " +
 		"in one container, strictly one after the other (next rejection only after the previous retransmission was seen), interleaved with the previous request's " +
 		"retransmission and result; per msg_id exactly 2 transmissions, the second with the new salt, Invoke returns the result. " +
+		"(3c) named: future_salts sets whose members end 1 s..6 min after now / after the lookahead edge plus long-lived ones, delivered before or after the send; the clock " +
+		"travels between send and rejection (none / small / so that the named salt is valid but inside the lookahead); bad_server_salt names a stored salt (first / middle / " +
+		"last by validity) or an unknown one; the retransmission must carry exactly the named salt. " +
 		"(4) stress: concurrent Invokes with bad_server_salt on random requests under -race. " +
 		"distinct non-trivial = (frame kind, salt class) pairs, invoke plans x salt class, unit observation classes, porcupine history shapes")
 	c.Assume("refmodel MTProto 2.0 cipher and the generated mt TL encoders are trusted; the harness model of 'told'/'announced' salts follows the order in which " +
@@ -45,6 +48,12 @@ func runC41(c *mon.Ctx) {
 	k := c.N(150, 6000)
 	for i := 0; i < k; i++ {
 		if !c41Traffic(c, i) {
+			break
+		}
+	}
+	nn := c.N(150, 6000)
+	for i := 0; i < nn; i++ {
+		if !c41Named(c, i) {
 			break
 		}
 	}
